@@ -8,7 +8,7 @@ backward) and slow statements.  Oracle: prefix in issue order, durability lower 
 bounded tail, no split of bucket-level operations on the lazily-committing store."""
 import os
 
-from sim import actors, gen
+from sim import actors, gen, seams
 from sim.common import Violation, digest
 from sim.crash import TAIL_BOUND, CrashWorld
 from sim.rng import Streams, derive, stream
@@ -162,7 +162,7 @@ class Rejected(actors.Party):
 class C06(Check):
     prop = "C06"
     level = "fault_enumeration"
-    quick_runs = 1600
+    quick_runs = 1200
     thorough_runs = 50000
     chunk = 20
     rule = (
@@ -211,6 +211,9 @@ class C06(Check):
         parties.append(actors.Admin(rs["admin"], cfg, buckets))
         parties.append(Rejected(rs["rej"], cfg, buckets))
         parties.append(Ticker(rs["tick"], cfg))
+        from checks.c18 import Sibling
+
+        parties.append(Sibling(rs["sib"], cfg))
         op = actors.Operator(rs["oper"], cfg)
         parties.append(op)
         weights = {
@@ -220,6 +223,7 @@ class C06(Check):
             "deleter": r.choice([0.1, 0.3]),
             "burst": r.choice([0.1, 0.3]),
             "rejected": r.choice([0.0, 0.2, 0.6]),
+            "sibling": r.choice([0.0, 0.0, 0.3]),
             "admin": r.choice([0.1, 0.4, 0.8]),
             "ticker": 0.4,
             "operator": r.choice([0.0, 0.05, 0.15]),
@@ -242,9 +246,10 @@ class C06(Check):
             density = min(density, 0.05)
         elif len(steps) > 150:
             density = min(density, 0.2)
-        return {"backend": backend, "steps": steps, "lat": lat, "density": density, "sample_seed": derive(seed, self.prop, idx, "sample")}
+        return {"backend": backend, "steps": steps, "lat": lat, "density": density, "sample_seed": derive(seed, self.prop, idx, "sample"), "tz_off_min": r.choice([0, 0, -300, 180, 330])}
 
     def start(self, world, run):
+        seams.CLOCK.set_local_offset(run.get("tz_off_min", 0))
         world.open()
 
     def before(self, world, step, i):
